@@ -5,6 +5,10 @@ import json, subprocess, os
 TECH = "contract-based deductive verification of the real Go code: VCs generated from go/ssa of /repo (govc), contracts in //@ comment files, obligations discharged by z3 4.8.12 / z3 5.1.0 / cvc5 1.0.3 and an exact polynomial normaliser"
 
 claimed = {
+ "C04": dict(
+   text="scMinimal is verified against the contract result == (S < L) for all 2^256 byte strings on the real code (the comparison loop runs with a concrete counter); a counterexample is replayed on the real function. The pinned tree violated it for every S in [2^252, L) (repaired by a fix: commit, see known_findings.json). That single, batch, default and ZIP-215 verification consult this function before accepting is part of the verify/VerifyBatch contracts (C01/C06).",
+   note="Trusted: go/ssa, govc, solvers. Uniqueness of the accepted S follows from S < L and the verification equation with M4 (L prime order); it is not a separate machine-checked lemma.",
+   ref="DESIGN.md §6 C04, §7 F1"),
  "C19": dict(
    text="Every function of internal/modm (both limb layouts) is verified against a functional contract: reduce, Barrett reduction (with in-function cuts: quotient estimate bounds, q3*L mod 2^264, borrow chain, Barrett bound), Add, Mul, Expand (16/32/64 bytes), ExpandRaw, Contract, the signed radix-16 recoding (digit ranges and exact weighted sum), the bit expansion of the sliding-window recoding, and the vartime comparison/subtraction helpers, for all inputs inside the stated limb bounds. Proof level, no input bound.",
    note="Trusted: go/ssa, govc, solvers. The second phase of ContractSlidingWindow (digit property) is NOT proved and is carried as an explicit assumption; 32-bit Mul is specified for a reduced first operand (see evidence assumptions); termination not proved.",
